@@ -8,6 +8,7 @@ re-binding between calls.  Oracle: an operative-record model vs the *parsed* tex
 operative_config_str(); then (if everything supplied is representable and nothing was re-bound)
 clear, parse that text, repeat the calls: same arguments, identical text.
 """
+import ast
 import contextlib
 import re
 import warnings
@@ -89,7 +90,92 @@ class _Opaque:
   pass
 
 
+DYN_FILES = {'c07a/__init__.py': '', 'c07b/__init__.py': '',
+             'c07a/utils.py': 'def make(x=None, y=None):\n  return ("a.utils", x, y)\n',
+             'c07b/other.py': 'def build(x=None, y=None):\n  return ("b.other", x, y)\n'}
+DYN_FNS = [('c07a.utils', 'make'), ('c07b.other', 'build')]
+
+
+def check_dyn(case):
+  """Dynamic registration: configurables that the Gin file imports and binds, and configurables
+  that were registered from Python and have no binding at all, are called; the operative config
+  must have a section for each, carry the imports it needs, and replay."""
+  import importlib, os, shutil, sys, tempfile  # pylint: disable=g-import-not-at-top,multiple-imports
+  tmp = tempfile.mkdtemp(prefix='c07-')
+  labels = {'kind:dynamic'}
+  try:
+    for rel, src in DYN_FILES.items():
+      path = os.path.join(tmp, rel)
+      os.makedirs(os.path.dirname(path), exist_ok=True)
+      with open(path, 'w') as f:
+        f.write(src)
+    sys.path.insert(0, tmp)
+    lines = ['from __gin__ import dynamic_registration']
+    model, cfgs = {}, {}
+    for i, (m, fn) in enumerate(DYN_FNS):
+      how = case['how'][i]                      # 'file' / 'python-bound' / 'python-unbound'
+      if how == 'file':
+        lines.append(f'import {m}')
+        for param, value in case['bound'][i]:
+          lines.append(f'{m}.{fn}.{param} = {value!r}')
+          model[(i, param)] = value
+        if not case['bound'][i]:
+          lines.append(f'{m}.{fn}.y = None')
+          model[(i, 'y')] = None
+    gin.parse_config('\n'.join(lines) + '\n')
+    for i, (m, fn) in enumerate(DYN_FNS):
+      obj = getattr(importlib.import_module(m), fn)
+      how = case['how'][i]
+      if how != 'file':
+        cfgs[i] = gin.external_configurable(obj, module=m)
+        if how == 'python-bound':
+          for param, value in case['bound'][i]:
+            gin.bind_parameter(('', f'{m}.{fn}', param), value)
+            model[(i, param)] = value
+        else:
+          labels.add('called-configurable-without-any-binding-and-not-imported')
+      else:
+        cfgs[i] = gin.get_configurable(obj)
+    results = [cfgs[i % 2]() for i in case['calls']]
+    for i, r in zip(case['calls'], results):
+      i %= 2
+      require(r == (DYN_FNS[i][0][3:], model.get((i, 'x')), model.get((i, 'y'))), 'dyn-call',
+              lambda: f'{r} vs model {model}')
+    try:
+      text = gin.operative_config_str()
+    except Exception as e:  # pylint: disable=broad-except
+      raise Violation('operative_config_str-raised', f'{type(e).__name__}: {e}\n' + '\n'.join(lines))
+    called = {i % 2 for i in case['calls']}
+    for i in called:
+      m, fn = DYN_FNS[i]
+      for param in 'xy':
+        want = model.get((i, param))
+        pat = re.compile(r'^(?:[\w.]+\.)?%s\.%s = (.*)$' % (fn, param), flags=re.M)
+        found = pat.findall(text)
+        require(len(found) == 1 and ast.literal_eval(found[0]) == want, 'dyn-operative-parameter',
+                lambda: f'{m}.{fn}.{param}: expected {want!r}, lines {found}\n{text}')
+    for i in {0, 1} - called:
+      require(DYN_FNS[i][1] + '.' not in text, 'dyn-never-called-listed', text)
+    gin.clear_config()
+    try:
+      gin.parse_config(text)
+    except Exception as e:  # pylint: disable=broad-except
+      raise Violation('operative-config-rejected-on-replay', f'{type(e).__name__}: {e}\n{text}')
+    again = [cfgs[i % 2]() for i in case['calls']]
+    require(again == results, 'replay-arguments-differ', lambda: f'{again} vs {results}\n{text}')
+    text2 = gin.operative_config_str()
+    require(text2 == text, 'replay-text-differs', lambda: f'--- first:\n{text}\n--- replay:\n{text2}')
+    labels.add('replayed')
+    return ok(labels, len(called) == 2)
+  finally:
+    if tmp in sys.path:
+      sys.path.remove(tmp)
+    shutil.rmtree(tmp, ignore_errors=True)
+
+
 def check_case(case):
+  if case.get('kind') == 'dynamic':
+    return check_dyn(case)
   labels = set()
   builts = []
   for i, shape in enumerate(case['probes']):
@@ -265,12 +351,35 @@ def check_case(case):
     return x
 
   # ---- the history ----------------------------------------------------------------------
+  dirty = [False]      # a binding was changed since the last successful call
   performed = []       # (pi, entries, args, kwargs) as really executed, for the replay
   received = []
   scopes_called = set()
   caller_sup, gin_sup = set(), set()
   n_calls = 0
   for step in case['steps']:
+    if step[0] == 'recall-raise':
+      # the last successful call is made once more, with one more keyword argument whose value
+      # makes the body raise: what the earlier calls recorded stays
+      if not performed or dirty[0]:
+        # (after a re-binding the repeated call would see other values than the recorded ones;
+        # whether a call that fails records them is not what is asked here)
+        continue
+      pi, entries, args, kwargs = performed[-1]
+      shape = builts[pi].shape
+      free = [p for p in G.named_params(shape)
+              if p not in kwargs and p not in (shape['pos'] + shape['dflt'])[:len(args)]]
+      if not free:
+        continue
+      with contextlib.ExitStack() as es:
+        for e in entries:
+          es.enter_context(gin.config_scope(e))
+        try:
+          builts[pi].call(args, dict(kwargs, **{free[step[1] % len(free)]: 'RAISE'}))
+          raise Violation('harness', 'the probe did not raise')
+        except G.ProbeRaised:
+          labels.add('call-that-raises-after-a-successful-one')
+      continue
     if step[0] == 'finalize':
       # finalizing validates and locks; it calls nothing, so it records nothing
       if not gin.config_is_locked():
@@ -308,6 +417,7 @@ def check_case(case):
         gin.bind_parameter((scope, builts[pi].selector, param), new_value)
       cfg[pi][(scope, param)] = ['lit', new_value]
       rebound = True
+      dirty[0] = True
       labels.add('rebind')
       continue
     _, pi, entries, spec = step
@@ -364,6 +474,7 @@ def check_case(case):
         record.setdefault(('/'.join(active), ('host', pi)), {})['hp'] = ['lit', None]
       run(pi, active, supplied)
       performed.append((pi, entries, args, dict(kwargs)))
+      dirty[0] = False
       received.append(normalise({k: rec[k] for k in ('named', 'args', 'kw')}))
       scopes_called.add('/'.join(active))
       n_calls += 1
@@ -479,7 +590,20 @@ _lit = st.sampled_from([1, -2, 'x', 'a longer string value with spaces', None, T
 
 
 @st.composite
-def strategy(draw):
+def _dyn_case(draw):
+  bound = [draw(st.lists(st.tuples(st.sampled_from('xy'), st.sampled_from([1, 'v', [1, 2], None])).map(
+      list), max_size=2, unique_by=lambda b: b[0])) for _ in DYN_FNS]
+  return {'kind': 'dynamic',
+          'how': [draw(st.sampled_from(['file', 'python-bound', 'python-unbound'])) for _ in DYN_FNS],
+          'bound': bound, 'calls': draw(st.lists(st.integers(0, 1), min_size=1, max_size=3))}
+
+
+def strategy():
+  return st.one_of(_static_case(), _static_case(), _static_case(), _static_case(), _dyn_case())
+
+
+@st.composite
+def _static_case(draw):
   n = draw(st.integers(2, 3))
   probes = []
   for i in range(n):
@@ -562,6 +686,9 @@ def strategy(draw):
       continue
     if draw(st.integers(0, 9)) == 0:
       steps.append(['finalize'])
+      continue
+    if steps and draw(st.integers(0, 7)) == 0:
+      steps.append(['recall-raise', draw(st.integers(0, 5))])
       continue
     pi = draw(st.sampled_from([0, 0, 0, 1, n - 1]))
     named = G.named_params(probes[pi % n])
